@@ -392,6 +392,22 @@ def r9_header_span_kept(rep, facts):
                   f'`{fn}` with {case}: the table opened has span {out["span"]!r} instead of the header\'s span — Item::span() of that table is None or stale and Spanned<T> of it fails to decode', loc)
 
 
+def r10_array_span(rep, facts):
+    R = rep.rule('C14/R10', 'an array of tables spans from its first element\'s header to the end of its last: finalize_table evaluated on a model state where a second '
+                 '`[[a.b]]` element (span 10..20) is attached after a first one (span 1..6)', floor=1)
+    from .shared import finalize_model
+    d = 'toml_edit::parser::state::ParseState::finalize_table'
+    loc = facts.loc(facts.body(d)) if facts.has_body(d) else ''
+    for case, out in finalize_model(facts):
+        if case != '[[a.b]] with an array of tables under the name':
+            continue
+        if isinstance(out, str):
+            (rep.incomplete if out.startswith('unanalysable') else rep.bad)(R, 'array-span', f'finalize_table, {case}: {out}', loc)
+            continue
+        rep.check(R, 'array-span', out.get('span') == ('range', 1, 19), '1..20', f'after attaching the second element the array of tables has span {out.get("span")!r} '
+                  f'(inclusive end) instead of 1..20: it does not cover its elements, or is stale', loc)
+
+
 def rules(rep, facts):
     feats = set(facts.crates.get('toml_edit', {}).get('features', []))
     if 'toml_edit' not in facts.crates or 'parse' not in feats:
@@ -402,6 +418,7 @@ def rules(rep, facts):
     r6_attach(rep, facts)
     r6b_header_span(rep, facts)
     r9_header_span_kept(rep, facts)
+    r10_array_span(rep, facts)
     if 'serde' in feats and 'serde_spanned' in facts.crates:
         r3_bridge(rep, facts)
         r4_uniform(rep, facts)
